@@ -12,6 +12,7 @@ import (
 	"encoding/binary"
 	"encoding/json"
 	"fmt"
+	"io"
 	"io/ioutil"
 	"os"
 	"os/exec"
@@ -20,6 +21,8 @@ import (
 	"strings"
 	"sync"
 	"time"
+
+	"github.com/honeytrap/honeytrap/listener"
 
 	"verif/harness/hx"
 )
@@ -32,6 +35,7 @@ type Input struct {
 	Conn  Conn   `json:"conn"`
 	N     int    `json:"n"`
 	Kind  string `json:"kind"`
+	Real  bool   `json:"real_deadline,omitempty"` // silence is waited out with the real 30 s idle timeout
 }
 
 type Obs struct {
@@ -485,11 +489,30 @@ var svcCoq = map[string]string{"ntp": "Ntp", "echo": "Echo", "dummy": "Dummy", "
 var dialCoq = map[string]string{"": "DialNone", "knock": "DialKnock", "hold": "DialHold"}
 var outCode = map[string]int{"returned": 0, "panic": 1, "spin": 2, "blocked": 3}
 
+// what the real listener.DummyUDPConn does once its datagram is consumed: (0, nil) for
+// ever [TZero] or end of stream [TEof] - asked of the code, not assumed
+var udpTerm = "TZero"
+
+func probeUDPTerm() string {
+	dc := &listener.DummyUDPConn{Buffer: []byte{1}}
+	buf := make([]byte, 4)
+	dc.Read(buf)
+	n, err := dc.Read(buf)
+	switch {
+	case n == 0 && err == nil:
+		return "TZero"
+	case n == 0 && err == io.EOF:
+		return "TEof"
+	}
+	hx.Fatal("listener.DummyUDPConn.Read after the datagram: (%d, %v) - neither (0, nil) nor (0, EOF)", n, err)
+	return ""
+}
+
 func coqCase(id int, in Input, ob Obs) string {
 	var segs []string
 	term := "TEof"
 	if in.Proto == "udp" {
-		term = "TZero"
+		term = udpTerm
 		var d []byte
 		for _, s := range in.Conn.Segs {
 			d = append(d, s...)
@@ -521,6 +544,7 @@ func main() {
 		return
 	}
 	o := hx.ParseArgs()
+	udpTerm = probeUDPTerm()
 	r := hx.NewRand(o.Seed)
 	var ins []Input
 	if o.Only != "" {
@@ -544,9 +568,32 @@ func main() {
 			}
 		}
 	}
+	if o.Only == "" && o.Tier == "thorough" {
+		// one run per service with the idle timeout the server really uses
+		for _, sv := range svcs {
+			in := Input{Svc: sv, Proto: "tcp", N: 1, Kind: "real-deadline", Real: true, Conn: Conn{End: "silent"}}
+			switch sv {
+			case "smtp":
+				in.Conn.Segs = str("HELO x\r\n", "NOO")
+			case "ftp":
+				in.Conn.Segs = str("USER anonymous\r\n", "PAS")
+			case "dummy", "memcached":
+				in.Conn.Segs = str("abc")
+			}
+			ins = append(ins, in)
+		}
+	}
 	deadline, wait := 60, 700
 	if o.Tier == "thorough" {
 		deadline, wait = 100, 2000
+	}
+	facts := idleTimeoutFact()
+	realDeadlineMs := 30000
+	for _, f := range facts {
+		if m := regexp.MustCompile(`^time\.Second\s*\*\s*(\d+)$|^(\d+)\s*\*\s*time\.Second$`).FindStringSubmatch(strings.TrimSpace(f)); m != nil {
+			fmt.Sscanf(m[1]+m[2], "%d", &realDeadlineMs)
+			realDeadlineMs *= 1000
+		}
 	}
 	perturb := os.Getenv("C09_PERTURB") // sanity testing of the check only
 	scratch, err := ioutil.TempDir(o.Out, "c09run")
@@ -569,6 +616,9 @@ func main() {
 			defer func() { <-sem }()
 			in := ins[i]
 			sp := Spec{Svc: in.Svc, Proto: in.Proto, V6: in.V6, Conn: in.Conn, N: in.N, DeadlineMs: deadline, WaitMs: wait, Perturb: perturb}
+			if in.Real {
+				sp.DeadlineMs, sp.WaitMs = realDeadlineMs, 3*realDeadlineMs
+			}
 			res, crash := runChild(sp, scratch, i)
 			results[i] = result{res, crash}
 		}(i)
@@ -604,7 +654,7 @@ func main() {
 		kind := in.Svc + "/" + in.Proto
 		cases = append(cases, hx.Case{ID: i, Kind: kind, Input: in, Obs: ob, Crash: crash, Coq: coqCase(i, in, ob)})
 	}
-	extra := map[string]interface{}{"deadline_ms": deadline, "wait_ms": wait, "idle_timeout_in_server_honeytrap_go": idleTimeoutFact()}
+	extra := map[string]interface{}{"deadline_ms": deadline, "wait_ms": wait, "idle_timeout_in_server_honeytrap_go": facts, "udp_after_datagram": udpTerm}
 	hx.Write(o, "C09", "conn", "From HT Require Import Common.Bytes C09.Model C09.Check.", "case", cases, dist, extra, 40)
 }
 
